@@ -270,7 +270,7 @@ func LiveMPD(a *asset, mpdName string, cfg *ResponseConfig, drmCfg *drm.DrmConfi
 				return nil, fmt.Errorf("adjustASForTimelineTime: %w", err)
 			}
 			if asIdx == 0 {
-				mpd.PublishTime = m.ConvertToDateTime(calcPublishTime(cfg, se.lsi))
+				mpd.PublishTime = m.ConvertToDateTimeMS(int64(math.Round(1000 * calcPublishTime(cfg, se.lsi))))
 			}
 		case timeLineNumber:
 			err := adjustAdaptationSetForTimelineNr(se, as)
@@ -282,7 +282,7 @@ func LiveMPD(a *asset, mpdName string, cfg *ResponseConfig, drmCfg *drm.DrmConfi
 				*as.SegmentTemplate.StartNumber += uint32(cfg.getStartNr())
 			}
 			if asIdx == 0 {
-				mpd.PublishTime = m.ConvertToDateTime(calcPublishTime(cfg, se.lsi))
+				mpd.PublishTime = m.ConvertToDateTimeMS(int64(math.Round(1000 * calcPublishTime(cfg, se.lsi))))
 			}
 		case segmentNumber:
 			err := adjustAdaptationSetForSegmentNumber(cfg, a, as)
